@@ -73,7 +73,9 @@ def binop(eng, op, a, b, s):
         s.assume(z3.ForAll([i], z3.Implies(z3.And(0 <= i, i < n1), z3.Select(arr, i) == h.lget(a.ref, i)),
                            patterns=[z3.Select(arr, i)]),
                  z3.ForAll([i], z3.Implies(z3.And(0 <= i, i < n2), z3.Select(arr, n1 + i) == h.lget(b.ref, i)),
-                           patterns=[h.lget(b.ref, i)]))
+                           patterns=[h.lget(b.ref, i)]),
+                 z3.ForAll([i], z3.Implies(z3.And(n1 <= i, i < n1 + n2), z3.Select(arr, i) == h.lget(b.ref, i - n1)),
+                           patterns=[z3.Select(arr, i)]))
         return [(eng.new_list(s, n1 + n2, arr), s)]
     if ka == "list" and b.ty == "int" and isinstance(op, ast.Mult):
         h = s.heap
@@ -793,6 +795,8 @@ def list_extend(eng, lst, other, s):
                        patterns=[z3.Select(arr, i)]),
              z3.ForAll([i], z3.Implies(z3.And(0 <= i, i < n2), z3.Select(arr, n1 + i) == z3.Select(seq.arr, i)),
                        patterns=[z3.Select(seq.arr, i)]),
+             z3.ForAll([i], z3.Implies(z3.And(n1 <= i, i < n1 + n2), z3.Select(arr, i) == z3.Select(seq.arr, i - n1)),
+                       patterns=[z3.Select(arr, i)]),
              n2 >= 0)
     s.heap = s.heap.set_list(lst.ref, n1 + n2, arr)
     return [(sv_none(), s)]
